@@ -10,10 +10,19 @@
      {"ev":"fwd","pos":p,"intact":b}      the next message arrived on the output channel: it is the p-th input message
                                           (p = 0: not an input message), intact = equal to the input message in every field
      {"ev":"send","passed":a,"filtered":b}   filter_as_streams returned Ok((a, b)) and the output channel is drained
+     {"ev":"export","s":[k1,...],"keep_lcs":[ids]}   an ExportPlugin (filters = F, lifecyclesToKeep = the lifecycles keep_lcs)
+                                          processes hdr.xmsgs[k1], hdr.xmsgs[k2], ... (the message table with lifecycles
+                                          that belong to the ecu of the message)
+     {"ev":"xfwd","pos":p,"intact":b}     next message of the exported file (re-read): the p-th processed message
+     {"ev":"xend","exported":n}           end of the exported file; n = nrExportedMsgs reported by the plugin
      {"ev":"end"}
      {"ev":"loaderr"|"error"|"panic","msg":..}   no action matches
 
+   `set` events with impl stream_context_* report, per position of a stream that was fed in portions through
+   StreamContext::from + process_stream_new_msgs, whether the stream contains that message.
+
    Contract (the property): set.kept = Keep(F, msgs[mi], TRUE) (event filters apply to streams and searches);
+   the exported file holds exactly the processed messages with ExportKeep(F, m, keep_lcs), in order, unchanged;
    a forwarded message is the next kept input message (Keep(.., FALSE): the stream filter of convert has no event
    filters), unchanged; at the end no kept message is missing, passed = number forwarded, passed + filtered = received.
    A case for which no action matches is recorded in `viol` and skipped up to the next reset.                     *)
@@ -21,61 +30,79 @@ EXTENDS FilterSet, IOUtils
 
 Rec == ndJsonDeserialize(IOEnv.TRACE)
 
-VARIABLES l, case, phase, hdr, strm, last, nfwd, viol
-vars == <<l, case, phase, hdr, strm, last, nfwd, viol>>
+VARIABLES l, case, phase, hdr, strm, last, nfwd, viol, klcs
+vars == <<l, case, phase, hdr, strm, last, nfwd, viol, klcs>>
 
 NoHdr == [F |-> <<>>, msgs |-> <<>>]
-Init == l = 1 /\ case = -1 /\ phase = "idle" /\ hdr = NoHdr /\ strm = <<>> /\ last = 0 /\ nfwd = 0 /\ viol = {}
+Init == l = 1 /\ case = -1 /\ phase = "idle" /\ hdr = NoHdr /\ strm = <<>> /\ last = 0 /\ nfwd = 0 /\ viol = {} /\ klcs = {}
 
 Ev(e) == l <= Len(Rec) /\ Rec[l].ev = e /\ l' = l + 1
 Cur == Rec[l]
 
 Reset == /\ Ev("reset")
-         /\ case' = Cur.case /\ hdr' = Cur.hdr /\ phase' = "running" /\ strm' = <<>> /\ last' = 0 /\ nfwd' = 0
-         /\ viol' = (IF phase \in {"running", "streaming"} THEN viol \cup {case} ELSE viol)     \* previous case never ended
+         /\ case' = Cur.case /\ hdr' = Cur.hdr /\ phase' = "running" /\ strm' = <<>> /\ last' = 0 /\ nfwd' = 0 /\ klcs' = {}
+         /\ viol' = (IF phase \in {"running", "streaming", "exporting"} THEN viol \cup {case} ELSE viol)     \* previous case never ended
 
 Kept(p) == Keep(hdr.F, hdr.msgs[strm[p]], FALSE)
 
 SetDecision == /\ Ev("set") /\ phase = "running"
                /\ Cur.mi \in 1..Len(hdr.msgs)
                /\ Cur.kept = Keep(hdr.F, hdr.msgs[Cur.mi], TRUE)
-               /\ UNCHANGED <<case, phase, hdr, strm, last, nfwd, viol>>
+               /\ UNCHANGED <<case, phase, hdr, strm, last, nfwd, viol, klcs>>
 StreamStart == /\ Ev("stream") /\ phase = "running"
                /\ \A k \in 1..Len(Cur.s) : Cur.s[k] \in 1..Len(hdr.msgs)
                /\ strm' = Cur.s /\ last' = 0 /\ nfwd' = 0 /\ phase' = "streaming"
-               /\ UNCHANGED <<case, hdr, viol>>
+               /\ UNCHANGED <<case, hdr, viol, klcs>>
 Fwd == /\ Ev("fwd") /\ phase = "streaming"
        /\ Cur.pos \in (last + 1)..Len(strm)
        /\ Kept(Cur.pos)                                              \* only kept messages are forwarded
        /\ \A p \in (last + 1)..(Cur.pos - 1) : ~Kept(p)             \* none is skipped, the order is kept
        /\ Cur.intact                                                 \* unchanged
        /\ last' = Cur.pos /\ nfwd' = nfwd + 1
-       /\ UNCHANGED <<case, phase, hdr, strm, viol>>
+       /\ UNCHANGED <<case, phase, hdr, strm, viol, klcs>>
 StreamEnd == /\ Ev("send") /\ phase = "streaming"
              /\ \A p \in (last + 1)..Len(strm) : ~Kept(p)            \* every kept message was forwarded
              /\ Cur.passed = nfwd
              /\ Cur.passed + Cur.filtered = Len(strm)
              /\ phase' = "running"
-             /\ UNCHANGED <<case, hdr, strm, last, nfwd, viol>>
+             /\ UNCHANGED <<case, hdr, strm, last, nfwd, viol, klcs>>
+ExportStart == /\ Ev("export") /\ phase = "running"
+               /\ \A k \in 1..Len(Cur.s) : Cur.s[k] \in 1..Len(hdr.xmsgs)
+               /\ strm' = Cur.s /\ last' = 0 /\ nfwd' = 0 /\ phase' = "exporting" /\ klcs' = {Cur.keep_lcs[k] : k \in 1..Len(Cur.keep_lcs)}
+               /\ UNCHANGED <<case, hdr, viol>>
+XK(p) == ExportKeep(hdr.F, hdr.xmsgs[strm[p]], klcs)
+XFwd == /\ Ev("xfwd") /\ phase = "exporting"
+        /\ Cur.pos \in (last + 1)..Len(strm)
+        /\ XK(Cur.pos)
+        /\ \A p \in (last + 1)..(Cur.pos - 1) : ~XK(p)
+        /\ Cur.intact
+        /\ last' = Cur.pos /\ nfwd' = nfwd + 1
+        /\ UNCHANGED <<case, phase, hdr, strm, viol, klcs>>
+XEnd == /\ Ev("xend") /\ phase = "exporting"
+        /\ \A p \in (last + 1)..Len(strm) : ~XK(p)
+        /\ Cur.exported = nfwd
+        /\ phase' = "running"
+        /\ UNCHANGED <<case, hdr, strm, last, nfwd, viol, klcs>>
 End == /\ Ev("end") /\ phase = "running"
-       /\ phase' = "ended" /\ UNCHANGED <<case, hdr, strm, last, nfwd, viol>>
+       /\ phase' = "ended" /\ UNCHANGED <<case, hdr, strm, last, nfwd, viol, klcs>>
 
 Matches == ENABLED SetDecision \/ ENABLED StreamStart \/ ENABLED Fwd \/ ENABLED StreamEnd \/ ENABLED End
-Reject == /\ l <= Len(Rec) /\ Cur.ev # "reset" /\ phase \in {"running", "streaming"} /\ ~Matches
+           \/ ENABLED ExportStart \/ ENABLED XFwd \/ ENABLED XEnd
+Reject == /\ l <= Len(Rec) /\ Cur.ev # "reset" /\ phase \in {"running", "streaming", "exporting"} /\ ~Matches
           /\ PrintT(<<"CASE_REJECTED", case, l, ToJson(Cur)>>)
           /\ l' = l + 1 /\ phase' = "rejected" /\ viol' = viol \cup {case}
-          /\ UNCHANGED <<case, hdr, strm, last, nfwd>>
+          /\ UNCHANGED <<case, hdr, strm, last, nfwd, klcs>>
 SkipRest == /\ l <= Len(Rec) /\ Cur.ev # "reset" /\ phase \in {"rejected", "ended", "idle"}
             /\ l' = l + 1
             /\ IF phase = "ended" THEN viol' = viol \cup {case} /\ phase' = "rejected"   \* events after `end`
                                   ELSE UNCHANGED <<viol, phase>>
-            /\ UNCHANGED <<case, hdr, strm, last, nfwd>>
+            /\ UNCHANGED <<case, hdr, strm, last, nfwd, klcs>>
 
-Next == Reset \/ SetDecision \/ StreamStart \/ Fwd \/ StreamEnd \/ End \/ Reject \/ SkipRest
+Next == Reset \/ SetDecision \/ StreamStart \/ Fwd \/ StreamEnd \/ ExportStart \/ XFwd \/ XEnd \/ End \/ Reject \/ SkipRest
 Spec == Init /\ [][Next]_vars
 
 AtEnd == l = Len(Rec) + 1
-FinalViol == IF phase \in {"running", "streaming"} THEN viol \cup {case} ELSE viol
+FinalViol == IF phase \in {"running", "streaming", "exporting"} THEN viol \cup {case} ELSE viol
 Report == AtEnd => PrintT(<<"VERDICT", ToJson([violations |-> FinalViol, known |-> {}])>>)
 Accepted == IF TLCGet("stats").diameter - 1 = Len(Rec) THEN TRUE
             ELSE Print(<<"TRACE_NOT_CONSUMED", TLCGet("stats").diameter, Len(Rec)>>, FALSE)
